@@ -199,7 +199,7 @@ def concrete_oracle_energy(raw, sw, ch, n, uc):
     raise ValueError
 
 
-def replay_fn(c):
+def replay_fn(c, light=False):
     ak = loader.real_auditok()
     import numpy as np
     from auditok import signal as rsig
@@ -229,7 +229,7 @@ def replay_fn(c):
         import random
         rnd = random.Random(1)
         ext = {1: [0, 1, 127, 128, 255], 2: [0, 1, 255, 127, 128], 4: [0, 1, 255, 127, 128]}[sw]
-        for _ in range(60):
+        for _ in range(6 if light else 60):
             cands.append(bytes(rnd.choice(ext) if rnd.random() < 0.5 else rnd.randrange(256) for _ in range(sw * ch * n)))
         cands.append(bytes(sw * ch * n))
         # the extremes of the sample range, alone and mixed with silence (|most negative| has no positive counterpart)
@@ -328,7 +328,7 @@ def configs(tier):
 
 
 def run(rep):
-    tok.VALIDATE[0] = replay_fn
+    tok.VALIDATE[0] = lambda c: replay_fn(c, light=True)
     L = loader.load()
     rep.hashes = L.hashes
     tier = rep.tier
